@@ -330,7 +330,9 @@ func (r *Runner) RunRemote(ctx context.Context, sc *Scenario, binary string) err
 					return err
 				}
 			} else {
-				r.runSign(ctx, st, env.B, op)
+				dctx, dcancel := context.WithTimeout(ctx, 60*time.Second) // a wedged binary shows as ERROR, not as a driver that never ends
+				r.runSign(dctx, st, env.B, op)
+				dcancel()
 			}
 		case "par":
 			// free-running concurrency over real connections: every sub-request from its own goroutine (and its own HTTP/2 stream)
@@ -338,7 +340,12 @@ func (r *Runner) RunRemote(ctx context.Context, sc *Scenario, binary string) err
 			cur := st
 			for _, o := range op.Ops {
 				wg.Add(1)
-				go func(o Op) { defer wg.Done(); r.runSign(ctx, cur, env.B, o) }(o)
+				go func(o Op) {
+					defer wg.Done()
+					dctx, dcancel := context.WithTimeout(ctx, 60*time.Second)
+					defer dcancel()
+					r.runSign(dctx, cur, env.B, o)
+				}(o)
 			}
 			wg.Wait()
 		default:
